@@ -43,8 +43,10 @@ def run(tier, replay=None):
         rowtext = {}
         for v in rep["violations"]:
             viols.append({
-                "key": "C18:%s:%s" % (v["kind"], v["class"]),
-                "what": "%s: the string %s comes back from /bin/sh as %s (%s)" % (v["kind"], v["s"], v["got"], v["detail"][:300]),
+                "key": "C18:%s:%s" % (v["kind"], "thread-env" if v["got"].startswith("thread-count") else
+                                      "special-resource" if v["got"].startswith("the stage's special") else v["class"]),
+                "what": ("%s (job with the argument %s): %s (%s)" if v["got"].startswith(("thread-count", "the stage's special"))
+                         else "%s: the string %s comes back from /bin/sh as %s (%s)") % (v["kind"], v["s"], v["got"], v["detail"][:300]),
                 "replay": {"rows.ndjson": json.dumps({"s": cs(v["s"]), "q": [], "r": [], "ok": True}) + "\n"},
             })
         if replay:
